@@ -193,6 +193,34 @@ def event_cases(r, tr, tier, tabs):
         subs = ["OHz", "OZa", "O[[", "Xab", "~~~", "\x01\x02\x03", "OH\x00"]
         subs += [pairs[m][0] for m in pairs if m not in req and all(
             m not in o.meta["ovni"]["require"] for (o, _) in tr.streams)][:3]
+        # an undeclared MCV of every model the stream requires: an unused category, a used category with an
+        # unused value, and a declared code with the value's case flipped when that is undeclared (handlers that
+        # ignore some codes must still refuse unknown ones).  Enumerated exceptions of the catalogue
+        # (C18 exceptions_enumerated): ovni OB*/OU* ignore the value byte, Nanos6 keeps the legacy 6TC.
+        for m in req:
+            if m not in tabs:
+                continue
+            ch = chr(tabs[m]["char"])
+            declared = {e[0][:3] for e in tabs[m]["evlist"]}
+            if m == "kernel":
+                declared |= {"KCO", "KCI"}
+            cats = sorted({d[1] for d in declared})
+            free_cat = next((c for c in "!#%QZqz" if c not in cats), None)
+            cand = []
+            if free_cat:
+                cand.append(ch + free_cat + "a")
+            okcats = [c for c in cats if not (m == "ovni" and c in "BU")]
+            if okcats:
+                c = r.choice(okcats)
+                v = next((v for v in "!#Zz9" if ch + c + v not in declared), None)
+                if v and not (m == "nanos6" and c + v == "TC"):
+                    cand.append(ch + c + v)
+            flips = [d[:2] + d[2].swapcase() for d in sorted(declared) if d[2].isalpha()
+                     and d[:2] + d[2].swapcase() not in declared and not (m == "ovni" and d[1] in "BU")
+                     and not (m == "nanos6" and d[1:2] + d[2].swapcase() == "TC")]
+            if flips:
+                cand.append(r.choice(flips))
+            subs += cand
         for mcv in subs:
             i = r.choice(mids)
             t = tr.clone()
@@ -236,6 +264,11 @@ def all_cases(r, tier, tabs, res):
         cases += swap_cases(r, tr, t)
         cases += meta_cases(r, tr, t)
         cases += event_cases(r, tr, t, tabs)
+    if tier == "quick":
+        # every model required at once (the `models` seed is otherwise thorough-only): event corruptions only
+        tr = L.seed_trace(r, tabs, "models")
+        cases.append(Case("control", "seed models", tr, expect="ok", sidx=0))
+        cases += event_cases(r, tr, "quick", tabs)
     return cases
 
 
